@@ -6,6 +6,8 @@
 (*   A contains a non-empty B  =>  A intersects B and Rect(A) covers Rect(B);*)
 (*   A intersects B  =>  their rectangles intersect;                        *)
 (*   a non-empty valid object contains and intersects itself.               *)
+(* The same laws are recorded for a set of "wild" planar leaves (holes,     *)
+(* degenerate rectangles, lines along hole boundaries) without using L1.    *)
 (***************************************************************************)
 EXTENDS TraceBase
 Laws(e) == /\ e.out = "ok"
@@ -18,6 +20,10 @@ Which(e) == IF e.out # "ok" THEN "abnormal outcome" ELSE IF e.BwA # e.AcB \/ e.A
             ELSE IF e.AiB # e.BiA THEN "intersects symmetry"
             ELSE IF e.AcB /\ ~e.emptyB /\ ~(e.AiB /\ e.rectAcoversB) THEN "contains => intersects and rectangle covered"
             ELSE IF e.AiB /\ ~e.rectsMeet THEN "intersects => rectangles meet" ELSE "self containment"
+\* transparency: two representations of one point set (Rect / five-point Polygon, Point / SimplePoint, Feature / its
+\* geometry) give the same six answers against the same partner
 Judge == pos > 0 =>
-   LET e == Trace[pos] IN IF Laws(e) THEN TRUE ELSE PrintT(ToString(<<"MISMATCH", pos, Which(e), "n/a", "laws">>))
+   LET e == Trace[pos] IN
+   IF e.op = "equiv" THEN (IF e.r1 = e.r2 THEN TRUE ELSE PrintT(ToString(<<"MISMATCH", pos, "representations answer differently", "n/a", "equiv">>)))
+   ELSE IF Laws(e) THEN TRUE ELSE PrintT(ToString(<<"MISMATCH", pos, Which(e), "n/a", "laws">>))
 =============================================================================
